@@ -382,8 +382,9 @@ def write_evidence(pid, tier, seed, mod, stats, wall, violations):
     evid = {'property_id': pid, 'tier': tier, 'seed': int(seed), 'level': 'exploration',
             'coverage': cov, 'assumptions': getattr(mod, 'ASSUMPTIONS', []),
             'wall_s': round(wall, 2), 'violations': int(violations)}
-    os.makedirs(os.path.join(VERIF, 'evidence'), exist_ok=True)
-    pth = os.path.join(VERIF, 'evidence', f'{pid}.json')
+    edir = os.environ.get('VERIF_OUT') or os.path.join(VERIF, 'evidence')
+    os.makedirs(edir, exist_ok=True)
+    pth = os.path.join(edir, f'{pid}.json')
     with open(pth + '.tmp', 'w', encoding='utf-8') as fil:
         json.dump(evid, fil, indent=1, default=str)
     os.replace(pth + '.tmp', pth)
@@ -480,8 +481,10 @@ def main(argv=None):
                     case = minimise(mod, ctx, case, bucket)
             except Exception:
                 pass
-            os.makedirs(os.path.join(VERIF, 'replays', pid, 'found'), exist_ok=True)
-            pth = os.path.join('replays', pid, 'found', f'{digest(case)}.json')
+            fdir = os.path.join(os.environ['VERIF_OUT'], 'found') if os.environ.get('VERIF_OUT') \
+                else os.path.join('replays', pid, 'found')
+            os.makedirs(os.path.join(VERIF, fdir), exist_ok=True)
+            pth = os.path.join(fdir, f'{digest(case)}.json')
             with open(os.path.join(VERIF, pth), 'w', encoding='utf-8') as fil:
                 json.dump({'property': pid, 'origin': 'shrunk by runner', 'bucket': bucket,
                            'failure': fdict['failure'], 'case': case}, fil, indent=1)
